@@ -337,6 +337,20 @@ impl Analyzer<'_> {
     self.info.get(&start).and_then(|md| md.end)
   }
 
+  /// The end recorded for `stmt` by its own visit.
+  ///
+  /// Metadata is keyed by start position, and an expression or declaration
+  /// statement shares its start with a function, arrow function or class it
+  /// begins with. Such a statement never marks an end itself, so whatever is
+  /// stored under its position describes the body of that function and must
+  /// not be taken for the way the statement ends.
+  fn get_stmt_end_reason(&self, stmt: &Stmt) -> Option<End> {
+    match stmt {
+      Stmt::Expr(_) | Stmt::Decl(_) => None,
+      _ => self.get_end_reason(stmt.start()),
+    }
+  }
+
   /// Mark a statement as finisher - finishes execution - and expose it.
   fn mark_as_end(&mut self, start: SourcePos, end: End) {
     let new_end = match self.scope.end {
@@ -549,14 +563,14 @@ impl Visit for Analyzer<'_> {
       a.visit_stmt_or_block(&n.cons);
     });
 
-    let cons_reason = self.get_end_reason(n.cons.start());
+    let cons_reason = self.get_stmt_end_reason(&n.cons);
 
     match &n.alt {
       Some(alt) => {
         self.with_child_scope(BlockKind::If, alt.start(), |a| {
           a.visit_stmt_or_block(alt);
         });
-        let alt_reason = self.get_end_reason(alt.start());
+        let alt_reason = self.get_stmt_end_reason(alt);
 
         match (cons_reason, alt_reason) {
           (Some(x), Some(y)) if x.is_forced() && y.is_forced() => {
@@ -631,7 +645,7 @@ impl Visit for Analyzer<'_> {
       let has_break = matches!(a.scope.found_break, Some(None));
 
       if !has_break {
-        let end = match a.get_end_reason(n.body.start()) {
+        let end = match a.get_stmt_end_reason(&n.body) {
           Some(e) if e.is_forced() => e,
           _ => End::forced_infinite_loop(),
         };
@@ -697,7 +711,7 @@ impl Visit for Analyzer<'_> {
 
       let unconditionally_enter =
         matches!(n.test.cast_to_bool(expr_ctxt), (_, Value::Known(true)));
-      let end_reason = a.get_end_reason(body_lo);
+      let end_reason = a.get_stmt_end_reason(&n.body);
       let return_or_throw = end_reason.is_some_and(|e| e.is_forced());
       let has_break = matches!(a.scope.found_break, Some(None));
 
@@ -726,7 +740,7 @@ impl Visit for Analyzer<'_> {
     self.with_child_scope(BlockKind::Loop, body_lo, |a| {
       n.body.visit_with(a);
 
-      let end_reason = a.get_end_reason(body_lo);
+      let end_reason = a.get_stmt_end_reason(&n.body);
       let return_or_throw = end_reason.is_some_and(|e| e.is_forced());
       let infinite_loop =
         matches!(n.test.cast_to_bool(expr_ctxt), (_, Value::Known(true)))
